@@ -355,6 +355,35 @@ def failing_decls(out: str):
     return sorted(set(names))
 
 
+class CallTimeout(BaseException):
+    """a single call into the real code did not return within its limit (a BaseException so that no
+    `except Exception` on the way swallows it; the timer re-fires every few seconds in case a bare
+    `except:` does)"""
+
+
+class time_limit:
+    """`with time_limit(20): real_code()` – raises CallTimeout (main thread, SIGALRM).  A call that does
+    not finish is a failure to compute, reported by the caller as a violation, not a hung check."""
+
+    def __init__(self, seconds):
+        self.seconds = int(seconds)
+
+    def __enter__(self):
+        import signal
+
+        def _raise(signum, frame):
+            raise CallTimeout("no result after %d s" % self.seconds)
+        self._old = signal.signal(signal.SIGALRM, _raise)
+        signal.setitimer(signal.ITIMER_REAL, self.seconds, 5)
+        return self
+
+    def __exit__(self, *a):
+        import signal
+        signal.setitimer(signal.ITIMER_REAL, 0)
+        signal.signal(signal.SIGALRM, self._old)
+        return False
+
+
 # --------------------------------------------------------------------------- findings
 
 def load_findings(pid):
